@@ -95,6 +95,37 @@ def rule_r1(chk, db, conf):
                         "argument `%s` of %s (%s) is not a confined path (request data: %s)" % (fb.local_name(idx) if fb else idx, short(fn), why, sorted(c["request"])[:3]))
 
 
+def rule_r1b(chk, db, conf):
+    """request data given directly to the *root-level* confinement function: confined to the root, not to its bucket"""
+    base = [n for n, b in conf.items() if any(callee_def(t).endswith("Absolutize::absolutize_virtually") and ("FileSystem", "root") in flow.backward(b, t["args"][1], at=bi).fields
+                                              for bi, t in b.calls())]
+    n = 0
+    for fn in base:
+        for b, bi, t in db.callers_of(fn):
+            if b.crate != "s3s_fs":
+                continue
+            n += 1
+            rb = db.root_of(b)
+            if rb.name in conf and {"bucket", "key"} <= {rb.local_name(l) for l in range(1, rb.argc + 1)}:
+                continue    # an object-path function: judged by R3 (it may confine with a component-wise starts_with test afterwards)
+            sl = flow.backward(b, t["args"][1], at=bi, stop=lambda x: callee_def(x) in conf)
+            req = sorted({(a.rsplit("::", 1)[-1], f) for a, f in sl.fields_full if a.startswith(fscore.REQUEST_ADT_PREFIX)})
+            # parameters of path helpers: only `bucket`-named strings (validated bucket names) may be joined under the root unsanitised
+            raw = []
+            root = db.root_of(b)
+            for l, pr in sl.params:
+                if b.kind != "Closure" and b.locals[l] in ("&str", "&alloc::string::String", "alloc::string::String") and b.local_name(l) not in ("bucket",):
+                    enc = any("encode_to_string" in (db.body(c["callee"].get("resolved") or "").text if db.body(c["callee"].get("resolved") or "") else callee_def(c)) for _, c, _ in sl.calls) or \
+                        any(rv2.get("agg") == "closure" and db.body(rv2.get("def", "")) is not None and "encode_to_string" in db.body(rv2.get("def", "")).text for _, rv2 in sl.aggs)
+                    if not enc:
+                        raw.append(b.local_name(l))
+            bad_req = [r for r in req if r[1] != "bucket"]
+            chk.verdict(not bad_req and not raw, "R1", "root-level:%s#%d" % (root.name.replace("s3s_fs::", "")[:60], bi), b.loc(bi),
+                        "%s is given request data %s directly: the result is confined to the root only, so `../other-bucket/x` or `../.upload-<id>.json` escapes the bucket" %
+                        (short(fn), bad_req or raw))
+    chk.floor("R1.rootlevel", n, 5, "call sites of the root-level confinement function")
+
+
 def rule_r2(chk, db, conf):
     base = [b for b in conf.values() if any(callee_def(t).endswith("Absolutize::absolutize_virtually") for _, t in b.calls())]
     chk.floor("R2", len(base), 1, "functions calling absolutize_virtually")
@@ -170,9 +201,13 @@ def rule_r3(chk, db, conf):
                 if a is not None and any(l == key_l for l, _ in a.params):
                     # unless a starts_with(bucket_dir) test dominates the Ok return
                     oks = [w["bi"] for w in flow.return_writes(b) if w["kind"] in ("Ok", "call")]
-                    sw = [x for ob in oks for x in guards.dominating_facts(b, ob) if x[0] == "call" and x[1].endswith("::starts_with") and x[2] is True]
+                    # only the component-wise Path::starts_with confines; a string prefix test lets `bucket` match `bucket-private`
+                    sw = [x for ob in oks for x in guards.dominating_facts(b, ob) if x[0] == "call" and x[1] == "std::path::Path::starts_with" and x[2] is True]
+                    strsw = [x for ob in oks for x in guards.dominating_facts(b, ob) if x[0] == "call" and x[1].endswith("::starts_with") and x[1] != "std::path::Path::starts_with"]
                     if sw:
                         ok = True
+                    elif strsw:
+                        why = "bucket confinement is tested with a *string* prefix (%s): key `../tenant-private/x` in bucket `tenant` passes because `<root>/tenant-private` starts with the string `<root>/tenant`" % short(strsw[0][1])
                     else:
                         why = "bucket/key are joined and confined to the root only: `bucket-a/../bucket-b/x` stays inside the root but leaves the bucket"
         chk.verdict(ok, "R3", short(b.name), b.loc(), "object path is not confined to its bucket: %s" % why)
@@ -218,6 +253,7 @@ def run(chk, db, tier):
     chk.rule("R2", "the confinement function confines: Ok only as the Ok outcome of absolutize_virtually(_, root); FileSystem.root written only from canonicalize()")
     chk.rule("R3", "bucket confinement: object paths are confined to the bucket directory; names placed in the root are built from sanitised values")
     chk.guard("R1", rule_r1, db, conf)
+    chk.guard("R1", rule_r1b, db, conf)
     chk.guard("R2", rule_r2, db, conf)
     chk.guard("R3", rule_r3, db, conf)
 
